@@ -309,8 +309,9 @@ func dg(b []byte, present bool) string {
 }
 
 // ---- child process: output-size limits and kills
-//   vh C14child sweep <dir> <from> <to>   for every limit L in [from,to): restore a.pmtiles, RLIMIT_FSIZE=L, Edit, record the two files
-//   vh C14child once <dir>                print "ready", run Edit once
+//
+//	vh C14child sweep <dir> <from> <to>   for every limit L in [from,to): restore a.pmtiles, RLIMIT_FSIZE=L, Edit, record the two files
+//	vh C14child once <dir>                print "ready", run Edit once
 func c14child() {
 	mode, dir := os.Args[2], os.Args[3]
 	p := filepath.Join(dir, "a.pmtiles")
